@@ -215,7 +215,9 @@ theorem build_gate {cfg : Config} {F : Val → M Val} {ctx : Builder.Ctx} {f : N
     (h : buildGate cfg .off ctx (buildVal ctx f) (.str name :: es) st = .ok (s, st1)) :
     ∃ gd args', s = .gate name gd args' ∧ List.Forall₂ (fun a a' => F a.2 = .ok a'.2) args args' ∧
       Fresh st1.gctx s ∧ GKeys st1.gctx ∧ GExt st.gctx st1.gctx ∧ st1.memo = st.memo := by
-  simp only [buildGate, if_true] at h
+  simp only [buildGate] at h
+  obtain ⟨_, _, h⟩ := bind_ok h
+  simp only [buildGateMemo, if_true] at h
   obtain ⟨p, hp, h⟩ := bind_ok h
   obtain ⟨s0, g'⟩ := p
   simp only [pure, Except.pure, Except.ok.injEq, Prod.mk.injEq] at h
@@ -622,10 +624,12 @@ theorem step_stmt {cfg : Config} {inject : Option (List (String × GateDef))} {f
   cases hs
   exact ⟨s', rfl, hrel, hk', hx, rfl, ⟨rfl, rfl, rfl, rfl⟩⟩
 
-theorem loop_macros {cfg : Config} {inject : Option (List (String × GateDef))} {f : Nat} {F G : Val → M Val} :
-    ∀ (ms : List Macro) (es : List BSx) (acc acc' : Acc), ms.mapM (visitMacro F G) = .ok es → GKeys acc.st.gctx →
-    circuitLoop cfg .off inject f acc es = .ok acc' →
-    ∃ ms', acc'.macros = acc.macros ++ ms' ∧ List.Forall₂ (MacroRel F G) ms ms' ∧ GKeys acc'.st.gctx ∧
+theorem loop_macros {cfg : Config} {inject : Option (List (String × GateDef))} {f : Nat} {Fm : Macro → Val → M Val}
+    {G : Val → M Val} :
+    ∀ (ms : List Macro) (es : List BSx) (acc acc' : Acc), ms.mapM (fun m => visitMacro (Fm m) G m) = .ok es →
+    GKeys acc.st.gctx → circuitLoop cfg .off inject f acc es = .ok acc' →
+    ∃ ms', acc'.macros = acc.macros ++ ms' ∧ List.Forall₂ (fun m m' => MacroRel (Fm m) G m m') ms ms' ∧
+      GKeys acc'.st.gctx ∧
       acc'.stmts = acc.stmts ∧ SameHdr acc acc' := by
   intro ms
   induction ms with
@@ -672,20 +676,23 @@ theorem loop_stmts {cfg : Config} {inject : Option (List (String × GateDef))} {
 
 /-! ### The whole rebuild -/
 
-/-- what the rebuild makes of the circuit-level S-expression of either visitor -/
-structure Rebuilt (F G : Val → M Val) (c : Circuit) (regs : List Val) (body : List Stmt) (c' : Circuit) : Prop where
+/-- what the rebuild makes of the circuit-level S-expression of either visitor (`F`: the visitor on the values of the
+body, `Fm m`: on those of the body of macro `m` — `MapFiller` knows the parameter names of the macro it visits) -/
+structure Rebuilt (F : Val → M Val) (Fm : Macro → Val → M Val) (G : Val → M Val) (c : Circuit) (regs : List Val)
+    (body : List Stmt) (c' : Circuit) : Prop where
   usepulses : c'.usepulses = c.usepulses
   constants : c'.constants = c.constants
   registers : c'.registers = regs
-  macros : List.Forall₂ (MacroRel F G) c.macros c'.macros
+  macros : List.Forall₂ (fun m m' => MacroRel (Fm m) G m m') c.macros c'.macros
   body : ∃ ss, c'.body = .block false false (.int 1) ss ∧ RelList F G body ss
   natives : (c.natives = [] ∧ c'.natives = []) ∨
     (c.natives ≠ [] ∧ ∃ d, normNatives c.natives = .ok d ∧ c'.natives = d.map (·.2))
 
-theorem build_circuitSx {F G : Val → M Val} {c c' : Circuit} {regs : List Val} {body : List Stmt} {em es : List BSx}
-    (hm : c.macros.mapM (visitMacro F G) = .ok em) (hs : visitStmts F G body = .ok es)
+theorem build_circuitSx {F : Val → M Val} {Fm : Macro → Val → M Val} {G : Val → M Val} {c c' : Circuit}
+    {regs : List Val} {body : List Stmt} {em es : List BSx}
+    (hm : c.macros.mapM (fun m => visitMacro (Fm m) G m) = .ok em) (hs : visitStmts F G body = .ok es)
     (hc : ∀ v ∈ c.constants, isConst v = true) (hr : ∀ v ∈ regs, isRegLike v = true)
-    (h : build (rebuildCfg c) (circuitSx c regs em es) = .ok c') : Rebuilt F G c regs body c' := by
+    (h : build (rebuildCfg c) (circuitSx c regs em es) = .ok c') : Rebuilt F Fm G c regs body c' := by
   rw [C07_memo_transparent] at h
   unfold buildNoMemo buildWith at h
   obtain ⟨inject, hinj, h⟩ := bind_ok h
